@@ -38,8 +38,9 @@ try:
         rows.append((name if pid == name.split("_")[0] else f"{name}:{pid}", verdict, "; ".join(l.replace("VIOLATION property=", "V ") for l in lines)[:200]))
         print(rows[-1], flush=True)
 finally:
-    sh(f"git -C /repo worktree remove --force {R}"); sh("git -C /repo worktree prune")
-    shutil.rmtree(ROOT, ignore_errors=True)
+    if not os.environ.get("ISO_KEEP"):
+        sh(f"git -C /repo worktree remove --force {R}"); sh("git -C /repo worktree prune")
+        shutil.rmtree(ROOT, ignore_errors=True)
     old = {}
     try: old = {r[0]: r for r in json.load(open("/verif/work/seeded_results_iso.json"))}
     except Exception: pass
